@@ -75,6 +75,13 @@ def cls_triple_pred_id_split(f):
     return re.search(rb"\] +/", bytes.fromhex(f["value"]["p"]["id"])) is not None
 
 
+def cls_subject_type_formfeed(f):
+    """NewType accepts a form feed; a subject type containing '>' form-feed '"' is cut by the subject-split expression"""
+    if f["class"] != "roundtrip" or f["vk"] != "triple":
+        return False
+    return re.search(rb">[\t\n\x0c\r ]+\"", bytes.fromhex(f["value"]["s"]["t"])) is not None
+
+
 def cls_graph_newline(f):
     """a text literal or node id containing a newline is written as two lines"""
     if f["class"] != "graph-roundtrip":
@@ -88,7 +95,7 @@ def cls_graph_uuid_collision(f):
 
 
 CLASSIFIERS = {"node_type_lt": cls_node_type_lt, "nan_payload": cls_nan_payload, "triple_pred_id_split": cls_triple_pred_id_split,
-               "graph_newline": cls_graph_newline}
+               "graph_newline": cls_graph_newline, "subject_type_formfeed": cls_subject_type_formfeed}
 
 
 def failures_of(r):
